@@ -80,7 +80,10 @@ type kase struct {
 	// randomised[id]==false: this party samples nothing in this protocol by design (e.g. a party that only receives
 	// in a redistribution); no "stream is read" / "messages change" demand is made for it.
 	passive map[ID]bool
-	run     func(x mcrt.Chooser, ks int64, sess int, taps map[ID]*tap) *outcome
+	// reactive[id]==true: this party's first message is computed AFTER it received a message (two-party protocols in
+	// which the parties alternate), so it may legitimately depend on the peer's randomness as well.
+	reactive map[ID]bool
+	run      func(x mcrt.Chooser, ks int64, sess int, taps map[ID]*tap) *outcome
 }
 
 type zeroChooser struct{}
@@ -123,8 +126,29 @@ func ctxLabel(name string, sess int) string { return fmt.Sprintf("c07/%s/session
 
 func rd(taps map[ID]*tap, id ID) io.Reader { return taps[id] }
 
+// idsTag names a party set: "n3" for {1,2,3}, "ids3-7-64" otherwise.
+func idsTag(ids []ID) string {
+	plain := true
+	for i, id := range ids {
+		if id != ID(i+1) {
+			plain = false
+		}
+	}
+	if plain {
+		return fmt.Sprintf("n%d", len(ids))
+	}
+	t := "ids"
+	for i, id := range ids {
+		if i > 0 {
+			t += "-"
+		}
+		t += fmt.Sprint(id)
+	}
+	return t
+}
+
 func sessionCase(ids []ID) *kase {
-	name := fmt.Sprintf("session/n%d", len(ids))
+	name := "session/" + idsTag(ids)
 	return &kase{name: name, ids: ids, sched: true, run: func(x mcrt.Chooser, ks int64, sess int, taps map[ID]*tap) *outcome {
 		q := proto.Set(ids...)
 		res, o := runNet(x, ids, taps, func(ctx context.Context, id ID, rt *network.Router) (*session.Context, error) {
@@ -143,7 +167,7 @@ func sessionCase(ids []ID) *kase {
 }
 
 func aorCase(ids []ID) *kase {
-	name := fmt.Sprintf("aor/n%d", len(ids))
+	name := "aor/" + idsTag(ids)
 	return &kase{name: name, ids: ids, sched: true, run: func(x mcrt.Chooser, ks int64, sess int, taps map[ID]*tap) *outcome {
 		q := proto.Set(ids...)
 		res, o := runNet(x, ids, taps, func(ctx context.Context, id ID, rt *network.Router) ([]byte, error) {
